@@ -52,7 +52,10 @@ where
     let mut accumulated_slack = Probability::zero();
 
     Ok(probabilities.iter().map(move |probability_float| {
-        let left_cumulative = (cumulative_float * scale).as_() + accumulated_slack;
+        // Rounding errors (in particular for `f32` at high `PRECISION`) can make the product exceed
+        // `free_weight` by a few units; clamp it so that the CDF stays below `1 << PRECISION`.
+        let left_cumulative =
+            core::cmp::min((cumulative_float * scale).as_(), free_weight) + accumulated_slack;
         cumulative_float = cumulative_float + *probability_float;
         accumulated_slack = accumulated_slack.wrapping_add(&Probability::one());
         left_cumulative
